@@ -236,6 +236,16 @@ class AppMutator(BaseMutator):
         ChangeFields), and then looks in each batch for any changes to fields
         that become unnecessary (due to field deletion).
         """
+        # The optimizations below rewrite mutations (field and model names,
+        # attributes, initial values). Work on copies, so that the
+        # definitions handed in (which may be processed again, as is done
+        # when preparing and then building batches for the same evolutions)
+        # are left as they were written.
+        mutations = [
+            self._copy_mutation(mutation)
+            for mutation in mutations
+        ]
+
         mutation_batches = self._create_mutation_batches(mutations)
 
         # Go through all the mutation batches and get our resulting set of
@@ -819,6 +829,26 @@ class AppMutator(BaseMutator):
             ]
 
         return mutations
+
+    def _copy_mutation(self, mutation):
+        """Return a copy of a mutation that can be safely modified.
+
+        Args:
+            mutation (django_evolution.mutations.BaseMutation):
+                The mutation to copy.
+
+        Returns:
+            django_evolution.mutations.BaseMutation:
+            The copy. Any dictionaries, lists or sets held by the mutation
+            are copied as well.
+        """
+        new_mutation = copy.copy(mutation)
+
+        for key, value in list(vars(new_mutation).items()):
+            if isinstance(value, (dict, list, set)):
+                setattr(new_mutation, key, copy.copy(value))
+
+        return new_mutation
 
     def _copy_change_attrs(self, source_mutation, dest_mutation):
         """Copy attributes for a ChangeField from one mutation to another.
